@@ -624,3 +624,131 @@ example :
   decide
 
 end C11Live
+
+namespace C11Live
+open Coord Live
+
+/-! ## everything else the live actors do in between leaves the simulation intact -/
+
+/-- handler calls that have nothing to do with session coordination: events of the replica, downloads,
+announcements of content, subscriptions, a lost neighbour -/
+def isNoise : In → Bool
+  | .subscribe _ _ | .dropChan _ | .neighborDown _ _ | .localInsert _ _ | .remoteInsert .. | .downloadReady .. | .contentReady .. => true
+  | _ => false
+
+theorem startDownload_slot (s : LState) (n h q : Bytes) (o b : Bool) (ns p : Bytes) :
+    (s.startDownload n h q o b).1.slot? ns p = s.slot? ns p := by
+  unfold LState.startDownload LState.enqueue LState.addProvider
+  split
+  · rfl
+  · split
+    · split <;> split <;> rfl
+    · split
+      · split <;> split <;> rfl
+      · split <;> rfl
+
+theorem startDownload_sp (s : LState) (n h q : Bytes) (o b : Bool) :
+    (s.startDownload n h q o b).1.smallerPeers = s.smallerPeers := by
+  unfold LState.startDownload LState.enqueue LState.addProvider
+  split
+  · rfl
+  · split
+    · split <;> split <;> rfl
+    · split
+      · split <;> split <;> rfl
+      · split <;> rfl
+
+theorem emitReady_slot (acc : LState × List Out) (m ns p : Bytes) : (emitReady acc m).1.slot? ns p = acc.1.slot? ns p := by
+  unfold emitReady
+  split
+  · split
+    · simp only; rw [slot?_send, slot?_updDoc_mayEmit]
+    · rfl
+  · rfl
+
+theorem emitReady_sp (acc : LState × List Out) (m : Bytes) : (emitReady acc m).1.smallerPeers = acc.1.smallerPeers := by
+  unfold emitReady
+  split
+  · split
+    · simp only; rw [send_sp]; rfl
+    · rfl
+  · rfl
+
+theorem foldl_emitReady_slot (l : List Bytes) (acc : LState × List Out) (ns p : Bytes) :
+    (l.foldl emitReady acc).1.slot? ns p = acc.1.slot? ns p ∧
+    (l.foldl emitReady acc).1.smallerPeers = acc.1.smallerPeers := by
+  induction l generalizing acc with
+  | nil => exact ⟨rfl, rfl⟩
+  | cons m rest ih =>
+    simp only [List.foldl_cons]
+    obtain ⟨h1, h2⟩ := ih (emitReady acc m)
+    rw [h1, h2]
+    exact ⟨emitReady_slot acc m ns p, emitReady_sp acc m⟩
+
+/-- such a call changes no slot and not the id order -/
+theorem noise_preserves (s : LState) (i : In) (hi : isNoise i = true) (ns p : Bytes) :
+    (Live.step s i).1.slot? ns p = s.slot? ns p ∧ (Live.step s i).1.smallerPeers = s.smallerPeers := by
+  cases i <;> simp only [isNoise, Bool.false_eq_true] at hi
+  case subscribe n c =>
+    have h1 : (Live.step s (.subscribe n c)).1.docs = s.docs := by simp only [Live.step]
+    have h2 : (Live.step s (.subscribe n c)).1.smallerPeers = s.smallerPeers := by simp only [Live.step]
+    exact ⟨by simp [LState.slot?, LState.doc?, h1], h2⟩
+  case dropChan c => exact ⟨rfl, rfl⟩
+  case neighborDown n q => simp only [Live.step]; exact ⟨slot?_send _ _ _ _ _, send_sp _ _ _⟩
+  case localInsert n e => simp only [Live.step]; split <;> exact ⟨rfl, rfl⟩
+  case remoteInsert n h f fv sd st b =>
+    simp only [Live.step]
+    split
+    · split
+      · split
+        · exact ⟨startDownload_slot _ _ _ _ _ _ _ _, startDownload_sp _ _ _ _ _ _⟩
+        · exact ⟨rfl, rfl⟩
+      · exact ⟨rfl, rfl⟩
+    · exact ⟨rfl, rfl⟩
+  case downloadReady n h ok =>
+    simp only [Live.step]
+    cases ok
+    · simp only [Bool.false_eq_true, if_false]
+      obtain ⟨h1, h2⟩ := foldl_emitReady_slot (s.removeHash h).2
+        ({ (s.removeHash h).1 with missing := insertSet (s.removeHash h).1.missing h }, []) ns p
+      exact ⟨h1, h2⟩
+    · simp only [if_true]
+      obtain ⟨h1, h2⟩ := foldl_emitReady_slot (s.removeHash h).2 (((s.removeHash h).1.send n (.contentReady h)).1,
+        ((s.removeHash h).1.send n (.contentReady h)).2 ++
+          ((s.removeHash h).1.send n (.contentReady h)).1.bcastNeighbors n (Codec.encGOp (.contentReady h))) ns p
+      rw [h1, h2]
+      exact ⟨slot?_send _ _ _ _ _, send_sp _ _ _⟩
+  case contentReady n q h b => exact ⟨startDownload_slot _ _ _ _ _ _ _ _, startDownload_sp _ _ _ _ _ _⟩
+
+theorem doc?_none_iff_slot (l : LState) (ns p : Bytes) : l.doc? ns = none ↔ l.slot? ns p = none := by
+  simp [LState.slot?]
+
+theorem rel_of_slot_eq (ns idA idB : Bytes) (n : Bool) (x : Coord.Node) (l l' : LState)
+    (hs : l'.slot? ns (other idA idB n) = l.slot? ns (other idA idB n)) (h : Rel ns idA idB n x l) :
+    Rel ns idA idB n x l' := by
+  unfold Rel at *
+  split
+  · rename_i hx; simp only [hx, if_true] at h; rw [hs]; exact h
+  · rename_i hx
+    simp only [hx, if_false] at h
+    refine ⟨?_, h.2⟩
+    rw [doc?_none_iff_slot l' ns (other idA idB n), hs, ← doc?_none_iff_slot]
+    exact h.1
+
+/-- **Interleaving**: a handler call that is not about session coordination — at either node, at any point
+of a schedule — leaves the two live actors in step with the protocol system -/
+theorem noise_keeps_R (ns idA idB : Bytes) (n : Bool) (sys : Sys) (la lb : LState) (i : In) (hi : isNoise i = true)
+    (h : R ns idA idB sys la lb) :
+    R ns idA idB sys (applyAt n la lb (fun l => (Live.step l i).1)).1 (applyAt n la lb (fun l => (Live.step l i).1)).2 := by
+  obtain ⟨hA, hB, hD1, hD2⟩ := h
+  cases n
+  · simp only [applyAt, Bool.false_eq_true, if_false]
+    have := noise_preserves la i hi ns (other idA idB false)
+    refine ⟨rel_of_slot_eq ns idA idB false _ la _ this.1 hA, hB, ?_, hD2⟩
+    rw [this.2]; exact hD1
+  · simp only [applyAt, if_true]
+    have := noise_preserves lb i hi ns (other idA idB true)
+    refine ⟨hA, rel_of_slot_eq ns idA idB true _ lb _ this.1 hB, hD1, ?_⟩
+    rw [this.2]; exact hD2
+
+end C11Live
